@@ -15,7 +15,7 @@ Statements only (helper lemmas live in `Lemmas/KindOf*.lean`).
   feature named in the property statement.
 
 The hierarchical / scheduling / contingent / multi-agent extensions of the kind computation are
-not modelled: they are checked against the syntactic oracle only (no theorem).
+modelled in `Core/KindOfExt.lean`; their theorems are in `Props/C10Ext.lean`.
 -/
 namespace UPVerif.C10
 open UPVerif UPVerif.KindOf UPVerif.Spec
